@@ -154,7 +154,9 @@ def relevant(pid, name, ref_result, cell_result, n_is_1):
         return acc_cell and acc_ref and not n_is_1
     if pid == "C07":
         # the buffer kept after an accepted line is what a later completion delivers
-        return name in ("delivered", "post_D") and acc_cell and acc_ref
+        # ... and "requesting decoding changes nothing but the decoded message": the state left
+        # behind an accepted line (decode on or off, decoding successful or not) is the reference's
+        return name in ("delivered", "post_D", "post_s", "post_sid") and acc_cell and acc_ref
     if pid == "C17":
         return (ref_result == ref.ERR_SEQ or n_is_1) and name in ("result", "post_sid", "post_s", "post_D")
     return True
